@@ -78,8 +78,15 @@ fn run_t<T: Elem>(case: &mut Case) -> Result<(), String> {
     let b: Vec<T> = gen_poly(&mut case.src);
     let s = T::small(&mut case.src);
     let x = if T::EXACT { T::small(&mut case.src) } else { T::from_int(case.src.small_int(3)) };
-    let pa = Polynomial::<T>::new(a.clone());
-    let pb = Polynomial::<T>::new(b.clone());
+    // operands may carry spare capacity (as after trim()/pop()): the coefficient list, not the buffer, is the polynomial
+    let spare = |v: &Vec<T>, extra: usize| -> Vec<T> {
+        let mut w = Vec::with_capacity(v.len() + extra);
+        w.extend_from_slice(v);
+        w
+    };
+    let (ea, eb) = (case.src.usize_below(4) * 3, case.src.usize_below(4) * 3);
+    let pa = Polynomial::<T>::new(spare(&a, ea));
+    let pb = Polynomial::<T>::new(spare(&b, eb));
     case.class(format!("{} lens {}", T::NAME, if a.is_empty() || b.is_empty() { "one-empty" } else if a.len() == b.len() { "equal" } else { "different" }));
     if !a.is_empty() && !b.is_empty() && a.len() != b.len() {
         case.mark_nontrivial();
@@ -110,6 +117,25 @@ fn run_t<T: Elem>(case: &mut Case) -> Result<(), String> {
     chk(&(pa.clone() * s), &m_scale(&a, s), "p * s")?;
     chk(&pa, &a, "operand p after by-reference operators")?;
     chk(&pb, &b, "operand q after by-reference operators")?;
+    // spare capacity through the API itself: append zeros then trim(), push then pop
+    if !a.is_empty() && !a.last().unwrap().is_zero_e() {
+        let mut pt = Polynomial::<T>::new(a.clone());
+        for _ in 0..3 {
+            pt.coeffs().push(T::from_int(0));
+        }
+        pt.trim();
+        chk(&pt, &a, "trim() after appending zero coefficients")?;
+        chk(&(pt.clone() + pb.clone()), &m_add(&a, &b), "trimmed p + q")?;
+        chk(&(pt + pb.clone()), &m_add(&a, &b), "(trimmed p, moved) + q")?;
+        chk(&(pb.clone() + Polynomial::<T>::new(spare(&a, 8))), &m_add(&b, &a), "q + (p with spare capacity)")?;
+        let mut pe = Polynomial::<T>::new(a.clone());
+        pe.coeffs().clear();
+        chk(&(pe + pb.clone()), &b, "(p emptied with coeffs().clear()) + q")?;
+    }
+    // the same object on both sides of a borrowing operator
+    chk(&(&pa + &pa), &m_add(&a, &a), "&p + &p")?;
+    chk(&(&pa - &pa), &m_sub(&a, &a), "&p - &p")?;
+    chk(&(&pa * &pa), &m_mul(&a, &a), "&p * &p")?;
     // commutativity as polynomials
     chk(&(&pb + &pa), &m_add(&a, &b), "&q + &p")?;
     chk(&(&pb * &pa), &m_mul(&a, &b), "&q * &p")?;
@@ -205,7 +231,7 @@ impl Prop for C11 {
     }
     fn rule(&self) -> String {
         "pairs of polynomials of length 0..=9 (the empty polynomial with probability 1/8 on either side) over {rationals, small-integer f64, Gaussian-integer Complex<f64>}, a scalar and an evaluation point; \
-         sum, difference, negation, product, scalar multiple in borrowed and owned form compared coefficient-by-coefficient (and by degree()) with a coefficient-list model (termwise / convolution, empty acts as zero); \
+         operands built with 0..9 elements of spare Vec capacity, also after push+trim() and coeffs().clear(); sum, difference, negation, product, scalar multiple in borrowed and owned form - including the same object on both sides (&p + &p, &p - &p, &p * &p) - compared coefficient-by-coefficient (and by degree()) with a coefficient-list model (termwise / convolution, empty acts as zero); \
          eval against a power sum and the homomorphism laws for +,-,*; derivative coefficients (k+1)a_{k+1}, derivative_n for every order 0..=deg+1, derivative_at for orders <= deg, linearity and the product rule as polynomial identities; \
          quadratic/cubic constructors, index write on a clone, is_zero, trim. All comparisons exact. Non-trivial: both operands non-empty with different lengths. distinct = distinct decoded choice sequence."
             .into()
